@@ -20,6 +20,13 @@ def allowedRawSites : List (String × String × String) :=
    ("src/drivers/__init__.py", "parseMsg", "string"),
    ("src/irclib.py", "Irc.feedMsg", "msg=")]
 
+/-- the filter commands a channel op may install as an outFilter: each maps text without CR/LF/NUL
+to text without CR/LF/NUL (letter substitutions, encoders, re-orderings; no decoder) -/
+def allowedOutFilters : List String :=
+  ["jeffk", "leet", "rot13", "hexlify", "binary", "scramble", "morse", "reverse", "colorize", "squish",
+   "supa1337", "stripcolor", "aol", "rainbow", "spellit", "hebrew", "undup", "uwu", "gnu", "shrink", "uniud",
+   "capwords", "caps", "vowelrot"]
+
 def cleanChar (c : Char) : Bool := !(c = '\r' || c = '\n' || c = Char.ofNat 0)
 
 /-- the tag-value escape table removes CR and LF and introduces no CR, LF or NUL -/
@@ -34,13 +41,22 @@ structure TablesOk : Prop where
   cutsBytes : Gen.truncateCutsBytes = true
   sites : Gen.rawMsgSites.all (fun s => allowedRawSites.contains s) = true
   esc : escSafe Gen.serverTagEscape = true
+  /-- the truncation sizes the line with the error handler the driver encodes with -/
+  sameErrors : Gen.truncateErrors = Gen.driverErrors
+  /-- nothing resets the serialisation after `_truncateMsg` stored the cut in it -/
+  cutKept : Gen.strResetAfterTruncate = false
+  /-- only known, CR/LF/NUL-preserving filter commands can become an outFilter -/
+  outFilters : Gen.filterOutCommands.all (fun c => allowedOutFilters.contains c) = true
 
 instance : Decidable TablesOk :=
   decidable_of_iff
     (Gen.invalidArgChars = ['\r', '\n', Char.ofNat 0] ∧ Gen.maxLineSize = 512 ∧ Gen.truncateReserve = 2 ∧
      Gen.truncateCountsBytes = true ∧ Gen.truncateCutsBytes = true ∧
-     Gen.rawMsgSites.all (fun s => allowedRawSites.contains s) = true ∧ escSafe Gen.serverTagEscape = true)
-    ⟨fun ⟨a, b, c, d, e, f, g⟩ => ⟨a, b, c, d, e, f, g⟩, fun ⟨a, b, c, d, e, f, g⟩ => ⟨a, b, c, d, e, f, g⟩⟩
+     Gen.rawMsgSites.all (fun s => allowedRawSites.contains s) = true ∧ escSafe Gen.serverTagEscape = true ∧
+     Gen.truncateErrors = Gen.driverErrors ∧ Gen.strResetAfterTruncate = false ∧
+     Gen.filterOutCommands.all (fun c => allowedOutFilters.contains c) = true)
+    ⟨fun ⟨a, b, c, d, e, f, g, h, i, j⟩ => ⟨a, b, c, d, e, f, g, h, i, j⟩,
+     fun ⟨a, b, c, d, e, f, g, h, i, j⟩ => ⟨a, b, c, d, e, f, g, h, i, j⟩⟩
 
 /-! ### clean strings -/
 
